@@ -257,19 +257,15 @@ def rule_c(ctx, f):
         src = f.describe(rv["op"])
         lows, highs = BOUNDS[to]
         lo = hi = False
-        for c in f.conds_at(b):
-            if c[0] != "eq":
+        for op, l, r, truth in f.cmp_conds_at(b):
+            if not f.same_origin(l, rv["op"]):
                 continue
-            d = str(c[1])
-            if not d.startswith("(" + src + " "):
-                continue
-            rest = d[len(src) + 2:-1]
-            op, _, bound = rest.partition(" ")
-            if any(x in bound for x in lows) and ((op == "Ge" and c[2] is True)
-                                                  or (op == "Lt" and c[2] is False)):
+            bound = f.describe(r)
+            if any(x in bound for x in lows) and ((op == "Ge" and truth) or
+                                                  (op == "Lt" and not truth)):
                 lo = True
-            if any(x in bound for x in highs) and ((op == "Le" and c[2] is True)
-                                                   or (op == "Gt" and c[2] is False)):
+            if any(x in bound for x in highs) and ((op == "Le" and truth) or
+                                                   (op == "Gt" and not truth)):
                 hi = True
         unsigned_src = rv["from"].startswith("u")
         if is_narrow and unsigned_src:
